@@ -170,6 +170,19 @@ def sem (branch : Bool) (s : Section) : Cov :=
     branches := if branch then brdaFold [] (brdaTriples s.recs) else []
     functions := semFunctions s.recs }
 
+/-- the names of the FN records exactly as written (before decoding) -/
+def fnWrittenNames (recs : List Rec) : List Bytes :=
+  recs.filterMap fun
+    | .fn _ name => some name
+    | _ => none
+
+/-- lcov 2.x writes function records with an end line, `FN:<start>,<end>,<name>`. grcov knows no
+such record: the bytes are those of an FN record whose name is `<end>,<name>`, and that is how they
+are read (Props/C04 `C04_fn_end_line_read_as_name`). Such a section is outside `WellFormed` as soon
+as an `FNDA:<count>,<name>` refers to the function by its real name: no FN declares `<name>`. -/
+def fnWithEndLine (start endLine : Digits) (name : Bytes) : Rec :=
+  .fn start (endLine.bytes ++ 44 :: name)
+
 /-- every function is declared once, and every FNDA record names a declared function -/
 def Section.FnOK (s : Section) : Prop :=
   (fnNames s.recs).Nodup ∧ ∀ nm ∈ fndaNames s.recs, nm ∈ fnNames s.recs
